@@ -5,6 +5,7 @@ import os
 from vlib import *
 
 
+THOROUGH_ROUNDS = 2      # repetitions of the conformance part in the thorough tier (fresh random draws each)
 def specials_256():
     s = set()
     for k in range(0, 16):
